@@ -100,8 +100,8 @@ def cmd_replay(a):
     from sim import env
 
     env.boot()
-    ok, viols, rp = replay_file(a.file)
-    print(json.dumps({"reproduced": ok, "violations": viols[:10], "property": rp["property"], "id": rp.get("id")}, default=str))
+    ok, viols, rp = replay_file(a.file, a.prop)
+    print(json.dumps({"reproduced": ok, "violations": viols[:40], "property": a.prop or rp["property"], "id": rp.get("id")}, default=str))
 
 
 def cmd_shrink(a):
@@ -134,6 +134,7 @@ def main():
     e.add_argument("--out", required=True)
     r = sub.add_parser("replay")
     r.add_argument("--file", required=True)
+    r.add_argument("--prop", default=None)
     s = sub.add_parser("shrink")
     s.add_argument("--file", required=True)
     s.add_argument("--out", required=True)
